@@ -205,6 +205,7 @@ func genTuple(r *core.Rand) URLCase {
 	c.Register = r.Chance(0.75)
 	c.Via = core.Choice(r, []string{"dial", "dialctx"})
 	c.Stub = core.Choice(r, []string{"plain", "ctx", "both", "plain", "ctx", "both", "alias"})
+	c.Scribble = r.Chance(0.4)
 	return c
 }
 
